@@ -407,6 +407,38 @@ func oracleBuilders(r *Run, m *dhcpv6.Message, w []byte) {
 	} else if m.MessageType == dhcpv6.MessageTypeSolicit && cid != nil {
 		r.Fail("advertise-rejects-valid", trunc(cs, 2000), err.Error())
 	}
+	// the same message with its client identifier held in raw form (a hand-built generic option, or one kept raw by a
+	// custom parser) gives the same advertise and reply: the builders echo the option, whatever its Go type
+	if cid != nil {
+		m2 := *m
+		m2.Options = dhcpv6.MessageOptions{Options: append(dhcpv6.Options{}, m.Options.Options...)}
+		for i, o := range m2.Options.Options {
+			if o.Code() == dhcpv6.OptionClientID {
+				m2.Options.Options[i] = &dhcpv6.OptionGeneric{OptionCode: dhcpv6.OptionClientID, OptionData: o.ToBytes()}
+				break
+			}
+		}
+		enc := func(f func(*dhcpv6.Message) (*dhcpv6.Message, error), x *dhcpv6.Message) (out string) {
+			defer func() {
+				if e := recover(); e != nil {
+					out = fmt.Sprint("panic: ", e)
+				}
+			}()
+			y, err := f(x)
+			if err != nil {
+				return "error"
+			}
+			return hx(y.ToBytes())
+		}
+		adv := func(x *dhcpv6.Message) (*dhcpv6.Message, error) { return dhcpv6.NewAdvertiseFromSolicit(x) }
+		rep := func(x *dhcpv6.Message) (*dhcpv6.Message, error) { return dhcpv6.NewReplyFromMessage(x) }
+		if a, b := enc(adv, m), enc(adv, &m2); a != b {
+			r.Fail("advertise-with-raw-client-id", trunc(cs, 2000), "typed client id gives "+trunc(a, 200)+", the same id as a generic option gives "+trunc(b, 200))
+		}
+		if a, b := enc(rep, m), enc(rep, &m2); a != b {
+			r.Fail("reply-with-raw-client-id", trunc(cs, 2000), "typed client id gives "+trunc(a, 200)+", the same id as a generic option gives "+trunc(b, 200))
+		}
+	}
 	sid := m.GetOneOption(dhcpv6.OptionServerID)
 	iana := m.GetOneOption(dhcpv6.OptionIANA)
 	if req, err := dhcpv6.NewRequestFromAdvertise(m); err == nil {
